@@ -799,7 +799,8 @@ func nearlyEqualURLCases() []chainCase {
 // delta is), undisturbed and with the caller's context cancelled when the second request — the one for the delta — arrives
 func realFetcherDeltaCases() []chainCase {
 	var cases []chainCase
-	for _, kb := range []string{"delta-ok", "delta-lists-cert", "base-lists-delta-removes", "many-entries-delta-lists-cert", "delta-expired", "delta-n5-i4", "clean", "lists-cert"} {
+	for _, kb := range []string{"delta-ok", "delta-lists-cert", "base-lists-delta-removes", "many-entries-delta-lists-cert", "delta-expired", "delta-n5-i4", "clean", "lists-cert",
+		"clean-base-advertises-delta", "clean-base-advertises-ldap-delta", "clean-base-advertises-ldap-and-https-delta"} {
 		for _, cancel := range []string{"", "at-request-2", "after"} {
 			if cancel == "at-request-2" && !strings.Contains(kb, "delta") {
 				continue // no delta, no second request
